@@ -87,11 +87,19 @@ func (r *rig) judge() *gx.Outcome {
 			lost = append(lost, msgID(i))
 		}
 	}
+	// known class: shutdown waits for every in-flight message, but a broker worker only flushes on one of
+	// its configured triggers; with a count/byte threshold, no Flush.Frequency, and fewer messages buffered
+	// than the threshold, nothing ever triggers
+	below := ""
+	if p.FlushMsgs > 1 && p.FlushFreq == 0 && len(lost) > 0 && len(lost) < p.FlushMsgs {
+		below = " buffered-below-Flush.Messages no-Flush.Frequency"
+	}
 	if hang {
 		sig := "close-hangs"
 		if len(lost) > 0 {
 			sig = "close-hangs-after-lost-outcome"
 		}
+		sig += below
 		out.Violate("C12", sig, "AsyncClose did not complete: Successes closed=%v Errors closed=%v; parked=%v pending=%s; %s", r.succDone, r.errDone, r.c.Parked(), r.cl.PendingKinds(), summary())
 	}
 
@@ -100,7 +108,7 @@ func (r *rig) judge() *gx.Outcome {
 		id := msgID(i)
 		switch n := len(byID[id]); {
 		case n == 0:
-			out.Violate("C01", "no-outcome", "message %s was accepted on Input() but never got a success or error event (%s); %s", id, cfg, summary())
+			out.Violate("C01", "no-outcome"+below, "message %s was accepted on Input() but never got a success or error event (%s); %s", id, cfg, summary())
 		case n > 1:
 			out.Violate("C01", "two-outcomes", "message %s got %d terminal events (%s); %s", id, n, cfg, summary())
 		}
@@ -111,7 +119,7 @@ func (r *rig) judge() *gx.Outcome {
 		}
 	}
 	if hang {
-		out.Violate("C01", "close-hangs", "AsyncClose never closed Successes/Errors (%s); %s", cfg, summary())
+		out.Violate("C01", "close-hangs"+below, "AsyncClose never closed Successes/Errors (%s); %s", cfg, summary())
 	}
 
 	// ---- C02 per-partition order
